@@ -122,10 +122,15 @@ class LoopMixin:
             return self.cut_set_loop(st, s, spec, ordinal, sset, lambda x: x)
         if isinstance(itv, VComp) and itv.over[0] == "seq" and itv.elem is not None:
             base, ivar = itv.over[1], itv.over[2]
-            if not (hasattr(itv.elem, "t") and itv.elem.t.eq(base.at(ivar).t)):
-                raise Unsupported("loop over a mapping comprehension")
             flt = itv.dom
-            return self.cut_seq_loop(st, s, spec, ordinal, base, lambda i, x: x,
+            if hasattr(itv.elem, "t") and itv.elem.t.eq(base.at(ivar).t):
+                mk = lambda i, x: x                                         # noqa: E731
+            elif hasattr(itv.elem, "t") and not getattr(itv, "extra_pc", None):
+                el = itv.elem
+                mk = lambda i, x: el.kind.wrap(z3.substitute(el.t, (ivar, i)))  # noqa: E731
+            else:
+                raise Unsupported("loop over a comprehension whose elements are not single terms")
+            return self.cut_seq_loop(st, s, spec, ordinal, base, mk,
                                      keep=lambda i: z3.substitute(flt, (ivar, i)))
         if isinstance(itv, VSet):
             return self.cut_set_loop(st, s, spec, ordinal, itv, lambda x: x)
@@ -234,6 +239,10 @@ class LoopMixin:
             extra["outer"] = outer_view
             if "trace_cell" in state.ghost:
                 extra["trace"] = state.heap[state.ghost["trace_cell"].oid].val
+            if "log_cell" in state.ghost:
+                extra["log"] = state.heap[state.ghost["log_cell"].oid].val
+            if "yield_cell" in state.ghost:
+                extra["yielded"] = state.heap[state.ghost["yield_cell"].oid].val
             return View(state, state.env, extra)
 
         # establish
